@@ -2,6 +2,7 @@ import Heathcliff.Proofs.C07S
 import Heathcliff.Proofs.C07L
 import Heathcliff.Proofs.GenScalingSpec
 import Heathcliff.Proofs.C07F
+import Heathcliff.Proofs.GenEvalCt
 
 /- Property theorems only (statements verbatim; proofs are the helper lemmas of Heathcliff/Proofs). -/
 namespace HC.C07
@@ -109,5 +110,22 @@ theorem fresh_budget_bfv_pk : type_of% @HC.fresh_budget_bfv_pk := @HC.fresh_budg
 
 /-- the centred representative is a smallest one in absolute value (what makes the measured noise ≤ any noise decomposition) -/
 theorem centred_le (y : Int) {Q : Nat} (hQ : 0 < Q) : (Spec.centred (Spec.imod y Q) Q).natAbs ≤ y.natAbs := HC.c07f_centred_le y hQ
+
+/-! ### translator tie, phase 4d: the ciphertexts whose budget is measured are built by `negate_inplace` / `translate_inplace` -/
+
+/-- `Evaluator::negate_inplace` (skeleton over the flat buffer) = `ctNegate` -/
+theorem gen_ct_negate_inplace_eq : type_of% @HC.gc_negate_inplace_eq := @HC.gc_negate_inplace_eq
+
+/-- … an invalid ciphertext is refused -/
+theorem gen_ct_negate_inplace_refuses : type_of% @HC.gc_negate_inplace_refuses := @HC.gc_negate_inplace_refuses
+
+/-- `Evaluator::translate_inplace` (add / sub), equal factors and equal sizes = `ctTranslate` -/
+theorem gen_ct_translate_inplace_same_size : type_of% @HC.gc_translate_inplace_same_size := @HC.gc_translate_inplace_same_size
+
+/-- PARTIAL (flat level): unequal factors: both operands scaled over all their polynomials, then the equal-factor routine -/
+theorem gen_ct_translate_inplace_balance_partial : type_of% @HC.gc_translate_inplace_balance_partial := @HC.gc_translate_inplace_balance_partial
+
+/-- PARTIAL (flat level): `size1 < size2`, subtraction: common part subtracted, tail copied and negated -/
+theorem gen_ct_translate_inplace_sub_tail_partial : type_of% @HC.gc_translate_inplace_sub_tail_partial := @HC.gc_translate_inplace_sub_tail_partial
 
 end HC.C07
